@@ -298,7 +298,9 @@ PROPS = {
         'rule': 'full lattice projection parameter set (secant and tangent, both hemispheres, five eccentricities, named '
                 'French zones) x point (dlat x dlon around the origin); per point the local scales along meridian and '
                 'parallel from central differences of the library own forward map, the inverse, origin and central-meridian '
-                'images. non-trivial = every point other than the projection origin and every standard-parallel check.',
+                'images; plus every sequence of 3 calls interleaved over three long-lived converters on different ellipsoids, '
+                'each result bit-equal to an isolated fresh converter. non-trivial = every point other than the projection '
+                'origin, every standard-parallel check and every interleaved call.',
         'assumptions': ['finite differences with step 1e-5 rad: truncation + rounding below 1e-9 relative', 'a conversion that does not return within the per-case deadline is a violation (outcome hang)'],
         'tiers': {'quick': {'deadline': 400, 'case_timeout': 15}, 'thorough': {'deadline': 3000, 'case_timeout': 15}},
         'technique': 'bounded-exhaustive configuration/input lattice enumeration on the real code; geometric oracle (conformality, true scale) from finite differences of the implementation own forward map; watchdog for termination',
